@@ -1922,4 +1922,72 @@ reader (as modelled, and as the code behaves) delivers nothing -/
 theorem chunk_bound_needed :
     ((readAllChunks false false exNames 64 (encodeAll [exR1, exR2, exR3])).map (·.1)).flatten = [] := by decide +kernel
 
+/-! ### writer sessions: a refused (raising) call and an empty table leave nothing behind -/
+
+theorem writer_foldl_out (hdr : Bytes) (calls : List (Option Bytes)) (w : Writer) (hw : w.headerWritten = true) :
+    (calls.foldl (Writer.write hdr) w).out = w.out ++ (calls.filterMap id).flatten ∧
+    (calls.foldl (Writer.write hdr) w).headerWritten = true := by
+  induction calls generalizing w with
+  | nil => simp [hw]
+  | cons c cs ih =>
+    cases c with
+    | none =>
+      have h1 : Writer.write hdr w none = w := by simp [Writer.write, hw]
+      simp only [List.foldl_cons, h1]
+      simpa using ih w hw
+    | some b =>
+      have h1 : Writer.write hdr w (some b) = { w with out := w.out ++ b } := by simp [Writer.write, hw]
+      simp only [List.foldl_cons, h1]
+      have := ih { w with out := w.out ++ b } hw
+      simpa [List.append_assoc] using this
+
+/-- ∀ non-empty sequences of calls on one writer — successful ones, refused ones (`none`), empty tables — the file holds the header
+ONCE followed by the bytes of the successful calls in order: what a failed call leaves behind is only "the header is out" -/
+theorem writer_session_bytes (hdr : Bytes) (calls : List (Option Bytes)) (hne : calls ≠ []) :
+    writerSession hdr calls = [hdr ++ (calls.filterMap id).flatten, []] := by
+  cases calls with
+  | nil => exact absurd rfl hne
+  | cons c cs =>
+    cases c with
+    | none =>
+      have := (writer_foldl_out hdr cs { out := [] ++ hdr, headerWritten := true } rfl).1
+      simpa [writerSession, Writer.write] using this
+    | some b =>
+      have := (writer_foldl_out hdr cs { out := [] ++ hdr ++ b, headerWritten := true } rfl).1
+      simpa [writerSession, Writer.write, List.append_assoc] using this
+
+theorem encodeAll_flatten (parts : List (List Rec)) : encodeAll parts.flatten = (parts.map encodeAll).flatten := by
+  induction parts with
+  | nil => rfl
+  | cons p ps ih => simp [encodeAll_append, ih]
+
+theorem filterMap_map_encodeAll (calls : List (Option (List Rec))) :
+    (calls.map (·.map encodeAll)).filterMap id = (calls.filterMap id).map encodeAll := by
+  induction calls with
+  | nil => rfl
+  | cons c cs ih => cases c <;> simp [ih]
+
+/-- the file of a writer session decodes to the records of the calls that succeeded, in order (∀ valid header, ∀ valid records,
+∀ non-empty sequences of calls, each either a list of records or a refusal) -/
+theorem writer_session_file (text : Bytes) (refs : List (Bytes × Nat)) (hh : validHeader text refs = true)
+    (calls : List (Option (List Rec))) (hne : calls ≠ [])
+    (hv : ∀ rs ∈ calls.filterMap id, ∀ r ∈ rs, valid refs.length r = true) :
+    readFile false false (writerSession (encodeHeader text refs) (calls.map (·.map encodeAll)))
+      = some (refs, ((calls.filterMap id).flatten).map (view (refs.map Prod.fst))) := by
+  have hne' : calls.map (·.map encodeAll) ≠ [] := by simpa using hne
+  rw [writer_session_bytes _ _ hne']
+  apply file_roundtrip text refs hh
+  · intro r hr
+    obtain ⟨rs, hrs, hr'⟩ := List.mem_flatten.mp hr
+    exact hv rs hrs r hr'
+  · have hfm := filterMap_map_encodeAll calls
+    simp [gunzip, hfm, encodeAll_flatten]
+
+example : writerSession [1, 2] [none, some [7], some [], none, some [8, 9]] = [[1, 2, 7, 8, 9], []] := by decide
+
+/-- the hypotheses of `writer_session_file` are met by a session that starts with a refused call: [refused, [r1, r2], [], refused, [r3]] -/
+example : ([none, some [exR1, exR2], some [], none, some [exR3]] : List (Option (List Rec))) ≠ [] ∧
+    ∀ rs ∈ ([none, some [exR1, exR2], some [], none, some [exR3]] : List (Option (List Rec))).filterMap id,
+      ∀ r ∈ rs, valid exNames.length r = true := by decide
+
 end C16
